@@ -26,7 +26,8 @@ def stress_cases(ctx, res, n):
 
 def run(ctx):
     thorough = ctx.tier == "thorough"
-    for cfg in ["ConcMC_sub_val.cfg", "ConcMC_sub_coll.cfg"] + (["ConcMC_sub2_coll.cfg", "ConcMC_sub_val3.cfg"] if thorough else []):
+    for cfg in ["ConcMC_sub_val.cfg", "ConcMC_sub_coll.cfg", "ConcMC_lossy_val.cfg", "ConcMC_lossy_coll.cfg"] + \
+            (["ConcMC_sub2_coll.cfg", "ConcMC_sub_val3.cfg"] if thorough else []):
         ctx.mc("ConcMC", cfg, workers=vf.NCPU, timeout=3000)
     cases = []
     if thorough:
@@ -34,18 +35,26 @@ def run(ctx):
         cases += conc_common.gen(ctx, "ConcGen_sub_coll.cfg", "coll", timeout=1800)
         cases += conc_common.gen(ctx, "ConcGen_sub2_coll.cfg", "coll", simulate="num=40000", timeout=1800)
         cases += conc_common.gen(ctx, "ConcGen_sub_val3.cfg", "val", simulate="num=40000", timeout=1800)
+        cases += conc_common.gen(ctx, "ConcGen_lossy_val.cfg", "val", timeout=1800)
+        cases += conc_common.gen(ctx, "ConcGen_lossy_coll.cfg", "coll", timeout=1800)
     else:
-        cases += conc_common.gen(ctx, "ConcGen_sub_val.cfg", "val", simulate="num=2500")
-        cases += conc_common.gen(ctx, "ConcGen_sub_coll.cfg", "coll", simulate="num=2500")
-        cases += conc_common.gen(ctx, "ConcGen_sub2_coll.cfg", "coll", simulate="num=1500")
-        cases += conc_common.gen(ctx, "ConcGen_sub_val3.cfg", "val", simulate="num=1500")
+        cases += conc_common.gen(ctx, "ConcGen_lossy_val.cfg", "val", simulate="num=600")
+        cases += conc_common.gen(ctx, "ConcGen_lossy_coll.cfg", "coll", simulate="num=1200")
+        cases += conc_common.gen(ctx, "ConcGen_sub_val.cfg", "val", simulate="num=1200")
+        cases += conc_common.gen(ctx, "ConcGen_sub_coll.cfg", "coll", simulate="num=1500")
+        cases += conc_common.gen(ctx, "ConcGen_sub2_coll.cfg", "coll", simulate="num=800")
+        cases += conc_common.gen(ctx, "ConcGen_sub_val3.cfg", "val", simulate="num=800")
     if len(cases) < 500:
         raise vf.Inconclusive("only %d schedules generated" % len(cases))
     # counterexample schedules of the unordered-publication variant (the defect the publication mutex repairs)
-    att = conc_common.attacks(ctx, "ConcGen_sub_val_pinned.cfg", "val", "converged", 2000 if thorough else 60,
+    att = conc_common.attacks(ctx, "ConcGen_sub_val_pinned.cfg", "val", "converged", 2000 if thorough else 35,
                               simulate=None if thorough else "num=6000")
-    att += conc_common.attacks(ctx, "ConcGen_sub_coll_pinned.cfg", "coll", "converged", 2000 if thorough else 60,
+    att += conc_common.attacks(ctx, "ConcGen_sub_coll_pinned.cfg", "coll", "converged", 2000 if thorough else 35,
                                simulate=None if thorough else "num=6000")
+    # ... and of the variant whose subscriptions are not serialised with commit+publication (lossy stale item)
+    att += conc_common.attacks(ctx, "ConcGen_lossy_attack.cfg", "coll", "converged", 2000 if thorough else 40)
+    if thorough:
+        att += conc_common.attacks(ctx, "ConcGen_lossy_coll_pinned.cfg", "coll", "converged", 2000)
     ctx.cov["attack_schedules"] = len(att)
     if len(att) < 20:
         raise vf.Inconclusive("only %d attack schedules found" % len(att))
